@@ -123,6 +123,9 @@ class DtypeScan:
                 if m in ("copy", "transpose", "reshape", "ravel", "take"):
                     return self.dtype_of(fn.value)
                 if m == "mat_asformat":
+                    fmt = e.args[0] if e.args else kws.get("format")
+                    if isinstance(fmt, ast.Constant) and isinstance(fmt.value, str):
+                        return self._asformat_dtype(fmt.value)
                     return UNKNOWN
                 if m == "dot" and e.args:
                     return self._common(self.dtype_of(fn.value), self.dtype_of(e.args[0]))
@@ -142,6 +145,39 @@ class DtypeScan:
             if d in ("numpy.sum",):
                 dt = kws.get("dtype")
                 return (self.dtype_of_dtype_expr(dt) or SAFE) if dt is not None else SAFE
+        return UNKNOWN
+
+    def _asformat_dtype(self, fmt):
+        """dtype class of <genotype matrix>.mat_asformat(<fmt>): read from the branch for that format in every genotype-matrix class of the package (int8 when the
+        branch accumulates in the storage dtype and every class agrees)"""
+        from .astutil import if_chain
+        from .model import body_nodoc
+        found = []
+        for g in self.prog.methods_by_name.get("mat_asformat", []):
+            if g.cls is None or not self.prog.is_subclass(g.cls, "GenotypeMatrix") or len(body_nodoc(g.node)) == 0:
+                continue
+            body = body_nodoc(g.node)
+            idx = [k for k, st in enumerate(body) if isinstance(st, ast.If)]
+            if not idx:
+                continue
+            for test, bbody, _n in if_chain(body, idx[0])[0]:
+                if isinstance(test, ast.Compare) and len(test.ops) == 1 and isinstance(test.ops[0], ast.Eq) and any(isinstance(x, ast.Constant) and x.value == fmt
+                                                                                                                   for x in [test.left] + test.comparators):
+                    sub = DtypeScan(self.prog, g, g.cls)
+                    sub.env_axis = {}
+                    t = UNKNOWN
+                    for st in bbody:
+                        if isinstance(st, ast.Assign) and len(st.targets) == 1 and isinstance(st.targets[0], ast.Name):
+                            sub.env[st.targets[0].id] = sub.dtype_of(st.value)
+                        elif isinstance(st, ast.AugAssign) and isinstance(st.target, ast.Name):
+                            cur = sub.env.get(st.target.id, UNKNOWN)
+                            v = st.value
+                            sub.env[st.target.id] = cur if (isinstance(v, ast.Constant) and isinstance(v.value, int)) else self._common(cur, sub.dtype_of(v))
+                        elif isinstance(st, ast.Return) and st.value is not None:
+                            t = sub.dtype_of(st.value)
+                    found.append(t)
+        if found and all(t == found[0] for t in found):
+            return found[0]
         return UNKNOWN
 
     @staticmethod
